@@ -9,6 +9,7 @@ import (
 	"math"
 	"os"
 	"path/filepath"
+	"runtime/debug"
 	"sort"
 	"strconv"
 	"strings"
@@ -71,7 +72,7 @@ func guard(timeout time.Duration, f func() string) (res string) {
 			if r := recover(); r != nil {
 				ch <- "panic"
 				if os.Getenv("VERIF_DEBUG") != "" {
-					fmt.Fprintf(os.Stderr, "panic: %v\n", r)
+					fmt.Fprintf(os.Stderr, "panic: %v\n%s\n", r, debug.Stack())
 				}
 			}
 		}()
@@ -101,6 +102,25 @@ func bitmapOf(l []uint32) *roaring.Bitmap {
 	return bm
 }
 
+// disturbBatches: see the pool disturbance in BuildWorldX.  One batch with two fields, one with
+// five; names on both sides of `_id` in byte order; stored values, doc values, locations.
+var disturbBatches = func() [][]Doc {
+	mk := func(names ...string) []Doc {
+		var docs []Doc
+		for i := 0; i < 2; i++ {
+			d := Doc{{Name: []byte("_id"), Length: 1, Store: true, Value: []byte{'q', byte('0' + i)},
+				Terms: []TermOcc{{Term: []byte{'q', byte('0' + i)}, Freq: 1}}}}
+			for j, n := range names {
+				d = append(d, FieldInst{Name: []byte(n), Length: 2, Store: j%2 == 0, DV: true, Value: []byte("dist-" + n),
+					Terms: []TermOcc{{Term: []byte("dq" + n), Freq: 2, Locs: []Loc{{Pos: 1, Start: 2, End: 3}, {Field: []byte("_id"), Pos: 4, Start: 5, End: 6}}}}})
+			}
+			docs = append(docs, d)
+		}
+		return docs
+	}
+	return [][]Doc{mk("~d"), mk("!a", "!b", "~c", "~d")}
+}()
+
 // BuildWorld constructs every segment of the case with the current code.
 func BuildWorld(c *Case) *World { return BuildWorldX(c, curAPI, curAPI) }
 
@@ -124,6 +144,17 @@ func BuildWorldX(c *Case, wr, rd *iceAPI) *World {
 					return "err"
 				}
 				rs.seg = s
+				// pool disturbance: two further builds with other field names right after this one, on
+				// the same goroutine, so that a pooled builder object is (very likely) reused at once.
+				// A segment that still aliases a slice or map of the builder then changes under the
+				// queries below - building another segment must never alter an existing one.
+				for _, db := range disturbBatches {
+					if sd.API == "pub" {
+						_, _, _ = wr.NewPub(toDocs(db), normFunc(c.Norm))
+					} else {
+						_, _, _ = wr.New(toDocs(db), normFunc(c.Norm), sd.Mode)
+					}
+				}
 			case "merge":
 				rs.isMerge = true
 				segs := make([]segment.Segment, len(sd.Ins))
@@ -502,7 +533,20 @@ func (w *World) exec(q Query, rc *ReuseCtx) string {
 					}
 					p, err := it.Next()
 					if err != nil {
-						return strings.Join(append(out, "err"), " ")
+						// what do later calls on this iterator say?  (a few more, then stop)
+						out = append(out, "err")
+						for k := 0; k < 4; k++ {
+							p, err = it.Next()
+							if err != nil {
+								out = append(out, "err")
+								continue
+							}
+							out = append(out, fmtPosting(p, f, n, l))
+							if p == nil {
+								break
+							}
+						}
+						return strings.Join(out, " ")
 					}
 					out = append(out, fmtPosting(p, f, n, l))
 					if p == nil {
@@ -724,6 +768,16 @@ func (w *World) exec(q Query, rc *ReuseCtx) string {
 			if orig.Count() != nd || orig.ChunkMode() != cm {
 				return "bad:footer-vs-original"
 			}
+		}
+		// CRC(): "the CRC value stored in the file footer" - the loaded copy and the original
+		// must both report what the file ends with
+		type crcView interface{ CRC() uint32 }
+		fileCRC := binary.BigEndian.Uint32(b[len(b)-4:])
+		if lc, ok := ls.(crcView); ok && lc.CRC() != fileCRC {
+			return fmt.Sprintf("bad:crc-accessor-loaded %08x file %08x", lc.CRC(), fileCRC)
+		}
+		if oc, ok := seg.(crcView); ok && oc.CRC() != fileCRC {
+			return fmt.Sprintf("bad:crc-accessor-original %08x file %08x", oc.CRC(), fileCRC)
 		}
 		return fmt.Sprintf("ok %d %d %d", nd, cm, ver)
 	case "repersist":
